@@ -2,7 +2,7 @@
 (* Behaviour of the stack beyond the twenty listed properties (specification growth, DESIGN §8):     *)
 (* SYNC with counter, TIME producer framing, active node search, store / restore parameters,          *)
 (* LSS identify services, PDO lookup rules.  Judged by Trace_Extras from recorded executions.         *)
-EXTENDS CanBase
+EXTENDS CanBase, FiniteSets
 
 SyncFrame(count) == [id |-> 128, d |-> IF count >= 0 THEN <<count>> ELSE <<>>, rtr |-> FALSE]
 \* TIME_OF_DAY (CiA 301): 28 bit milliseconds after midnight, 16 bit days.  The library counts the
@@ -17,4 +17,13 @@ RestoreReq(sub) == <<35, 17, 16, sub, 108, 111, 97, 100>>        \* "load"
 \* LSS identify remote slave: six address frames 0x46..0x4B, identify non-configured: 0x4C
 IdentifyFrames(ids) == [k \in 1..6 |-> [id |-> 2021, d |-> <<69 + k>> \o ids[k] \o <<0, 0, 0>>, rtr |-> FALSE]]
 IdentifyNonConfigured == [id |-> 2021, d |-> <<76, 0, 0, 0, 0, 0, 0, 0>>, rtr |-> FALSE]
+\* array view of a remote node (SdoArray): the device's sub-index 0 decides; record view (SdoRecord):
+\* the dictionary decides, the "highest sub-index" entry 0 is not counted and not iterated
+ArrLen(n) == n
+ArrIter(n) == [i \in 1..n |-> i]
+ArrContains(n, s) == 0 <= s /\ s <= n
+RECURSIVE SortedSeq(_)
+SortedSeq(S) == IF S = {} THEN <<>> ELSE LET m == CHOOSE x \in S : \A y \in S : x <= y IN <<m>> \o SortedSeq(S \ {m})
+RecLen(subs) == Cardinality(subs \ {0})
+RecIter(subs) == SortedSeq(subs \ {0})
 =============================================================================
